@@ -23,6 +23,8 @@ for d in seeded/C*/; do
   if [ -n "${SEED_IDS:-}" ] && ! echo " $SEED_IDS " | grep -q " $id "; then continue; fi
   prop=$(python3 -c "import json;print(json.load(open('$d/meta.json'))['property'])")
   with=$(python3 -c "import json;d=json.load(open('$d/meta.json'));print(d.get('check_with',d['property']))")
+  obsolete=$(python3 -c "import json;print(json.load(open('$d/meta.json')).get('obsolete',''))")
+  if [ -n "$obsolete" ]; then echo "| $id | $prop | n/a (obsolete) | - | $obsolete |" >> $out; continue; fi
   patch=$d/patch.diff; note=""
   if [ -f $d/patch.rebased.diff ]; then patch=$d/patch.rebased.diff; note=" (rebased)"; fi
   if ! git -C "$R" diff --quiet; then echo "repo dirty"; exit 2; fi
